@@ -196,6 +196,32 @@ def from_groove_cases(chk, rng):
                             {'factory': 'from_groove', 'groove': name, 'kwargs': kw, 'args': {k: repr(x) for k, x in v.items()}})
 
 
+def positional_calls(chk):
+    """the size arguments given by position: the factory `Profile.<shape>(...)` and the profile class it stands for read them in the same order"""
+    from pyroll.core import Profile
+    import pyroll.core.profile.profile as P
+    pairs = {'round': 'RoundProfile', 'square': 'SquareProfile', 'box': 'BoxProfile', 'diamond': 'DiamondProfile', 'hexagon': 'HexagonProfile'}
+    patterns = {'round': [(7.0,), (None, 9.0)], 'square': [(6.0,), (None, 9.0), (6.0, None, 1.0)], 'box': [(8.0, 5.0), (8.0, 5.0, 1.0)],
+                'diamond': [(8.0, 5.0), (8.0, 5.0, 0.5)], 'hexagon': [(4.0,), (None, 7.0), (None, None, 9.0), (4.0, None, None, 0.5)]}
+    for fac, clsname in pairs.items():
+        cls = getattr(P, clsname, None)
+        if cls is None:
+            continue
+        for args in patterns[fac]:
+            chk.cov['evaluations'] += 1
+            res = []
+            for maker in (getattr(Profile, fac), cls):
+                try:
+                    p_ = maker(*args)
+                    res.append(tuple(round(x, 12) for x in p_.cross_section.bounds))
+                except Exception as e:      # noqa
+                    res.append(type(e).__name__)
+            if res[0] != res[1]:
+                return chk.fail('positional', f"Profile.{fac}{args} gives {res[0]}, {clsname}{args} gives {res[1]} (bounds of the cross-section): the factory and the "
+                                f"class read positional size arguments in different orders", {'factory': fac, 'args': [repr(a) for a in args]})
+    return True
+
+
 def from_groove_overfilled(chk, rng):
     """requests wider than the usable width (over-filled), up to and just beyond the end of the contour lines, at closed and open gaps:
     the factory either raises or returns a valid, simple cross-section of exactly the requested width"""
@@ -333,6 +359,8 @@ def run(chk):
         translator_validation(chk, rng)
     valid_cases(chk, rng, 200 if not chk.thorough else 3000)
     invalid_cases(chk)
+    if not chk.failures:
+        positional_calls(chk)
     from_groove_cases(chk, rng)
     if not chk.failures:
         from_groove_splines(chk, rng)
